@@ -24,10 +24,13 @@ VAR_OPS = [
     ("A=9 vh-argv PREFIX", 'prefix', ('A', '9')),
     ("read A <<< 'p q'", 'read', (('A',), 'p q')),
     ("read A B <<< 'p q r'", 'read', (('A', 'B'), 'p q r')),
+    ("read A B C <<< 'p'", 'read', (('A', 'B', 'C'), 'p')),            # fewer words than names: the others become empty
+    ("read B A <<< ' p   q '", 'read', (('B', 'A'), ' p   q ')),       # runs of blanks separate fields
     ("B=2", 'assign', ('B', '2')),
     ("export B=4", 'export', ('B', '4')),
     ("unset B", 'unset', 'B'),
     ("B=7 vh-argv PREFIX", 'prefix', ('B', '7')),
+    ("B=6 vh-argv PREFIX | vh-argv NEXT", 'prefix', ('B', '6', 'pipeline')),     # the prefix belongs to the first command of the pipeline only
 ]
 SHALLOW_OPS = ("A='{a,b}'", "A='`vh-mark RAN 0`$(vh-mark RAN 0)'")
 CD_OPS = [("cd ROOT/d1", 'cd', 'ROOT/d1'), ("cd d2", 'cd', 'd2'), ("cd ..", 'cd', '..'), ("cd ln", 'cd', 'ln'), ("cd", 'cd', None),
@@ -52,6 +55,8 @@ class Model:
         return m
 
     def set(self, name, value):
+        if name not in ('A', 'B'):
+            return      # no operation and no probe reads any other name: not part of the state
         exported = self.vars.get(name, (None, False))[1]
         self.vars[name] = (value, exported)
 
@@ -139,6 +144,8 @@ def run_history(hist):
                 obs['back'] = {'cwd': x['cwd'].replace(root, 'ROOT'), 'text': (x['argv'][1] if len(x['argv']) > 1 else '').replace(root, 'ROOT')}
             if x.get('k') == 'argv' and x['argv'][:1] == ['PREFIX']:
                 obs['prefix'] = {k: x['env'].get(k) for k in ('A', 'B')}
+            if x.get('k') == 'argv' and x['argv'][:1] == ['NEXT']:
+                obs['next'] = {k: x['env'].get(k) for k in ('A', 'B')}
         for base in ('ROOT', 'ROOT/d1', 'ROOT/d1/d2'):
             if os.path.exists(os.path.join(base.replace('ROOT', root), 'relfile.out')):
                 obs['rel'] = base
@@ -214,6 +221,10 @@ def run(rep, tier):
                 want[prefix[0]] = prefix[1]
                 if obs['prefix'] != want:
                     return 'prefix-assignment-env'
+                if len(prefix) == 3:
+                    want[prefix[0]] = m2.vars[prefix[0]][0] if prefix[0] in m2.vars and m2.vars[prefix[0]][1] else None
+                    if obs.get('next') != want:
+                        return 'prefix-assignment-reaches-next-stage'
             return None
         for (hist, line, obs), (m, m2, ok, prefix, op) in zip(results, meta):
             ntrans += 1
@@ -240,7 +251,7 @@ def run(rep, tier):
                 rep.outcome('deviation:' + dev)
                 st = 'exported' if (op[1] in ('assign', 'prefix', 'read', 'unset') and any(v[1] for v in m.vars.values())) else 'plain'
                 rep.violation('%s:%s:%s' % (dev, op[1], st), {'line': line, 'history': [OPS[i][0] for i in hist]}, exp,
-                              {k: obs[k] for k in ('probe', 'prefix', 'rel', 'back', 'status_last', 'err')}, repro='cd ROOT && cicada -c %s' % common.shquote(line))
+                              {k: obs.get(k) for k in ('probe', 'prefix', 'next', 'rel', 'back', 'status_last', 'err')}, repro='cd ROOT && cicada -c %s' % common.shquote(line))
         frontier = nxt
         rep.bounds.append({'layer': 'BFS depth %d' % depth, 'transitions': len(jobs), 'new_states': len(nxt), 'complete': True})
     rep.states = len(seen)
